@@ -7,6 +7,7 @@ use std::str::FromStr;
 use serde_json::{json, Value};
 
 mod ops;
+mod ops_json;
 
 fn main() {
     // silence the default panic message; panics are reported in the answer
